@@ -882,6 +882,54 @@ def check_mast_hash_reference(prop, tier, repo, verif):
     return res
 
 
+def check_context_reference_full(prop, tier, repo, verif):
+    t0 = time.time()
+    variants = 16 if tier == 'thorough' else 6
+    res = {'unit': 'bounded:context_reference_full', 'engine': 'bounded run of the real assembler + processor against an independent reference model of contexts, memory, locals and stack visibility written from docs/src/user_docs/assembly/{execution_contexts,io_operations,code_organization,flow_control}.md (tools/ctxfull, adapted from the fourth C07 sub-agent\'s demo; release build)', 'status': 'ok',
+           'failures': [], 'undecided': [], 'bounded': True,
+           'bound': '546 nestings of exec / call / syscall / dyncall / dynexec to depth 4 (incl. user procedures reached through dynexec from a kernel procedure) x %d seeded variants each over 0..5 locals per frame, caller depths 16..30, colliding addresses {0, 1, 2, 2^30-1..2^30+9, 2^31-1..2^31+8, 3*2^30-1, 3*2^30, 2^32-2, 2^32-1}, element / word / stream / pipe / local loads and stores, side calls, loops; deliberately failing programs (callee returning with depth != 16, syscall target not in the kernel, caller outside a syscall, address >= 2^32, context creation inside a syscall); compared: complete final stack, failure kind, and the memory of EVERY context (Process::get_mem_state)' % variants}
+    binp, err = build_tool(repo, verif, 'ctxfull', release=True)
+    if binp is None:
+        res['status'] = 'undecided'
+        res['undecided'].append('ctxfull does not build against the current tree: ' + err)
+        return res
+    try:
+        p = subprocess.run([binp, str(variants), str(0xC07), '3'], stdout=subprocess.PIPE, stderr=subprocess.PIPE, text=True, timeout=7200)
+    except subprocess.TimeoutExpired:
+        res['status'] = 'undecided'
+        res['undecided'].append('ctxfull timed out')
+        return res
+    m = re.search(r'SUMMARY programs=(\d+) contexts=(\d+) mismatches=(\d+) generator_errors=(\d+)', p.stdout)
+    if not m:
+        res['status'] = 'undecided'
+        res['undecided'].append('ctxfull gave no summary (panic?): ' + (p.stdout + p.stderr)[-500:])
+        return res
+    if int(m.group(4)):
+        res['undecided'].append('ctxfull: %s generator / harness errors' % m.group(4))
+    seen = set()
+    for ln in p.stdout.split('\n'):
+        mm = re.match(r'FAILCASE mismatch :: (.*?) :: expected (.*?) :: actual (.*)', ln)
+        if not mm:
+            continue
+        descr, exp, act = mm.groups()
+        shape = re.sub(r'[^A-Za-z0-9>]+', '-', descr.split('|')[0]).strip('-')[:70]
+        if shape in seen or len(seen) > 10:
+            continue
+        seen.add(shape)
+        res['failures'].append({'obligation': '%s/bounded/context_reference_full#%s' % (prop, shape), 'message': 'contexts / memory / locals deviate from the reference model: %s' % descr[:300],
+                                'rendered': ln[:1800], 'origins': ['processor/src/system/mod.rs', 'processor/src/decoder/mod.rs', 'processor/src/stack/mod.rs', 'processor/src/chiplets/memory', 'processor/src/operations/io_ops.rs', 'processor/src/operations/sys_ops.rs', 'processor/src/lib.rs', 'assembly/src/assembler'],
+                                'failing_input': {'program': descr[:600], 'expected': exp[:400], 'actual': act[:400], 'cmd': '.cache/target/release/ctxfull %d' % variants}})
+    if int(m.group(3)) and not res['failures']:
+        res['failures'].append({'obligation': '%s/bounded/context_reference_full#mismatches' % prop, 'message': '%s mismatches' % m.group(3), 'rendered': p.stdout[-800:], 'origins': []})
+    if res['failures']:
+        res['status'] = 'fail'
+    elif res['undecided']:
+        res['status'] = 'undecided'
+    res['wall_s'] = round(time.time() - t0, 1)
+    res['checker_cmd'] = 'tools/ctxfull %d (built against the current tree): %s programs, %s contexts compared' % (variants, m.group(1), m.group(2))
+    return res
+
+
 def check_hash_invariance(prop, tier, repo, verif):
     t0 = time.time()
     res = {'unit': 'bounded:hash_invariance', 'engine': 'bounded run of the real assembler and processor (tools/hashprobe)', 'status': 'ok',
